@@ -3,6 +3,8 @@
 Finite domain, enumerated completely (15 keys x intervals -48..48, interval pairs -13..13, 128 x 128 pitch pairs,
 128 pitches x distances -12..12), plus Hypothesis integers of arbitrary magnitude for the interval.
 """
+import numbers
+
 import numpy
 from hypothesis import strategies as st
 
@@ -125,7 +127,7 @@ def check(case):
             except Exception as e:
                 out.fail("cof-raises", f"a={a} b={b}: {type(e).__name__}: {e}")
                 return out
-            if isinstance(d, bool) or not isinstance(d, int) or not -5 <= d <= 6:
+            if isinstance(d, bool) or not isinstance(d, numbers.Integral) or not -5 <= d <= 6:
                 out.fail("cof-range", f"distance({a},{b})={d!r}")
                 return out
             if (d - (pb - pa)) % 12 != 0:
